@@ -4,6 +4,7 @@
 -/
 import QV.Sexp
 import QV.Driver.Color
+import QV.Driver.Layout
 
 open QV
 
@@ -15,6 +16,15 @@ def dispatch (req : Sexp) : Sexp :=
   | .list (.atom "spec-color" :: args) => Driver.handleSpecColor "spec-color" args
   | .list (.atom "spec-colorui" :: args) => Driver.handleSpecColor "spec-colorui" args
   | .list (.atom "spec-brushui" :: args) => Driver.handleSpecColor "spec-brushui" args
+  | .list (.atom "grid" :: args) => Driver.Layout.handleModel "grid" args
+  | .list (.atom "form" :: args) => Driver.Layout.handleModel "form" args
+  | .list (.atom "vbox" :: args) => Driver.Layout.handleModel "vbox" args
+  | .list (.atom "hbox" :: args) => Driver.Layout.handleModel "hbox" args
+  | .list (.atom "spec-grid" :: args) => Driver.Layout.handleSpec "spec-grid" args
+  | .list (.atom "f9-grid" :: args) => Driver.Layout.handleSpec "f9-grid" args
+  | .list (.atom "spec-form" :: args) => Driver.Layout.handleSpec "spec-form" args
+  | .list (.atom "spec-vbox" :: args) => Driver.Layout.handleSpec "spec-vbox" args
+  | .list (.atom "spec-hbox" :: args) => Driver.Layout.handleSpec "spec-hbox" args
   | _ => .list [.atom "bad-request"]
 
 partial def loop (h : IO.FS.Stream) (out : IO.FS.Stream) : IO Unit := do
